@@ -162,6 +162,12 @@ def run_shard(shard, ctx):
         secs = [SONG, SYNC, EVENTS] + [(h, header_body(k)) for k, h in enumerate(HEADERS)]
         check(ctx, render(secs), "file", "all 40 track sections")
         check(ctx, render(secs[::-1]), "file", "all 40 track sections, reversed file order")
+        same = [SONG, SYNC, EVENTS] + [(h, header_body(7)) for h in HEADERS]
+        check(ctx, render(same), "file", "all 40 track sections with one and the same body")
+        check(ctx, render(same[::-1]), "file", "all 40 track sections with one and the same body, reversed file order")
+        for k in (2, 3, 5):
+            mixed = [SONG, SYNC, EVENTS] + [(h, header_body(i % k)) for i, h in enumerate(HEADERS)]
+            check(ctx, render(mixed), "file", "all 40 track sections sharing %d bodies" % k)
     elif kind == "pairs":
         for i in range(shard[1], shard[1] + 4):
             ctx.node()
@@ -169,6 +175,10 @@ def run_shard(shard, ctx):
                 if i != j:
                     text = render([SONG, (HEADERS[i], header_body(i)), SYNC, (HEADERS[j], header_body(j)), EVENTS])
                     check(ctx, text, "file", "track sections [%s] then [%s]" % (HEADERS[i], HEADERS[j]), sample=dict(headers=[HEADERS[i], HEADERS[j]]))
+                    # the SAME body under both headers (a co-op track copied from the lead): each key still gets its own,
+                    # correctly labelled track
+                    text = render([SONG, (HEADERS[i], header_body(i)), SYNC, (HEADERS[j], header_body(i)), EVENTS])
+                    check(ctx, text, "file", "track sections [%s] then [%s] with identical bodies" % (HEADERS[i], HEADERS[j]), sample=dict(headers=[HEADERS[i], HEADERS[j]], same_body=True))
     elif kind == "subsets":
         for m in range(shard[1], shard[1] + 128):
             hs = [(k, "Expert" + ins) for k, ins in enumerate(INSTRUMENTS) if m >> k & 1]
